@@ -13,3 +13,46 @@ pub(crate) fn schema_over(storage: &'static mut [SchemaNode<'static>], fingerpri
 		schema_json: String::new(),
 	}
 }
+
+use crate::schema::safe::{Array, Record, RecordField, RegularType, SchemaKey, SchemaMut};
+
+pub(crate) fn stub_fingerprint(_s: &SchemaMut) -> Result<[u8; 8], SchemaError> {
+	Ok([0; 8])
+}
+pub(crate) fn stub_json(_s: &SchemaMut) -> Result<String, SchemaError> {
+	Ok(String::new())
+}
+
+// (tier=off: no verdict in 900 s, kept for the record, see DESIGN.md §4 C10)
+// @harness props=C10x,C19x tier=off timeout=1800
+// @bound freeze() of 1-2 node heap-built graphs with the fingerprint and the JSON rendering stubbed out: dangling key in a record field, in an array; array<long> with the node reference checked against the node vector
+#[kani::proof]
+#[kani::unwind(6)]
+#[kani::stub(alloc::fmt::format, crate::verif::stub_format)]
+#[kani::stub(crate::schema::safe::SchemaMut::canonical_form_rabin_fingerprint, stub_fingerprint)]
+#[kani::stub(crate::schema::safe::SchemaMut::serialize_to_json, stub_json)]
+fn c10_freeze_small_graphs() {
+	let g = SchemaMut::from_nodes(vec![Record::new(
+		crate::schema::Name::from_fully_qualified_name("r"),
+		vec![RecordField::new("a", SchemaKey::from_idx(5))],
+	)
+	.into()]);
+	let r = Schema::try_from(g);
+	assert!(r.is_err(), "c10_freeze: dangling key in a record field must be an error");
+	std::mem::forget(r);
+	let g = SchemaMut::from_nodes(vec![Array::new(SchemaKey::from_idx(1)).into()]);
+	let r = Schema::try_from(g);
+	assert!(r.is_err(), "c10_freeze: dangling key in an array must be an error");
+	std::mem::forget(r);
+	let g = SchemaMut::from_nodes(vec![Array::new(SchemaKey::from_idx(1)).into(), RegularType::Long.into()]);
+	let r = Schema::try_from(g);
+	match &r {
+		Ok(s) => match s.root().as_ref() {
+			SchemaNode::Array(items) => assert!(std::ptr::eq(items.as_ref(), &s.nodes[1]) && matches!(items.as_ref(), SchemaNode::Long), "c10_freeze: node reference does not point at the right node"),
+			_ => assert!(false, "c10_freeze: root kind changed"),
+		},
+		Err(_) => assert!(false, "c10_freeze: valid graph rejected"),
+	}
+	std::mem::forget(r);
+	kani::cover!(true, "end of harness reached");
+}
